@@ -21,6 +21,7 @@ def gen_case(rs, tier):
     rng = W.stream(rs, "design")
     krng = W.stream(rs, "knobs")
     cfg = gen.swarm(krng, tier)
+    cfg["combinators"] = krng.random() < 0.3
     ast = gen.gen_design(rng, cfg, tier)
     if ast is None:
         return None
